@@ -83,6 +83,16 @@ def handle : List String → Verdict
         else if slowOKS != "1" then some s!"a client whose connection was backed up for 3.6 s received {slowGotS} of {n} events: deliveries pending meanwhile were dropped"
         else none,
       nontrivial := true, tags := ["slow-reader"], sig := "slow" }
+  | ["stress", statusH, sentS, missingS] =>
+    match hexField statusH with
+    | some status =>
+      let st := String.ofList (status.map fun c => Char.ofNat c.toNat)
+      { predfail :=
+          if st != "ok" then some s!"clients subscribing and leaving in parallel with back-to-back broadcasts: {st}"
+          else if missingS != "0" then some s!"{missingS} resident client(s) missed events out of {sentS} broadcast while other clients came and went"
+          else none,
+        nontrivial := true, tags := ["stress"], sig := "stress" }
+    | none => .badOp
   | _ => .badOp
 
 end TemplVerif.Drive.C19
